@@ -205,7 +205,8 @@ def opSEQ (args obs : List String) : Option DecOut := do
       let bad := evs.filter fun e => e.startsWith "wac" || e.startsWith "rac"
       let f06a := if bad.isEmpty then [] else [s!"C06 I/O on a connection after the client closed it: {bad}", s!"C14 I/O after close {bad}"]
       let fHang0 := if tmo && (opName == "SND" || opName == "HLP") && evs.any (·.startsWith "hang") then ["C04 read without a deadline although a timeout is configured",
-        "C14 a send waits for its ack without a read deadline although a timeout is configured: with a silent peer it holds the session lock for ever and Disconnect / Reconnect hang behind it"] else []
+        "C14 a send waits for its ack without a read deadline although a timeout is configured: with a silent peer it holds the session lock for ever and Disconnect / Reconnect hang behind it",
+        "C08 a send's wait for its ack is not bounded by a read deadline: a wait that is given up some other way leaves its read behind, which then takes the ack of the next send (two waits at the same time)"] else []
       -- the socket refused a write because a deadline armed during an earlier operation had passed: the library
       -- arms deadlines for its own reads only, and a later send on a healthy connection must not trip over one
       let fHang := fHang0 ++ (if evs.any (·.startsWith "zto") then
@@ -323,8 +324,10 @@ def opSEQ (args obs : List String) : Option DecOut := do
             match expected with
             | some e =>
               (if res == "ok" && wire != e then ["C09 success although the connection did not accept the whole encoding",
-                "C08 a send reported success but its message is not on the wire whole and exactly once"] else []) ++
-              (if wire.isPrefixOf e then [] else ["C09 accepted bytes are not a prefix of the encoding"]) ++
+                "C08 a send reported success but its message is not on the wire whole and exactly once",
+                "C07 what a successful send put on the wire is not the encoding of its message: another send (an earlier, failed one) altered it"] else []) ++
+              (if wire.isPrefixOf e then [] else ["C09 accepted bytes are not a prefix of the encoding",
+                "C07 the bytes a send put on the wire are not (a prefix of) its own message's encoding: something left over from another send went out with it"]) ++
               (if !allWritesOk evs && res == "ok" then ["C09 a failed or short write was reported as success"] else [])
             | none =>
               (if res == "ok" then ["C09 unencodable message reported as success"] else []) ++
